@@ -50,6 +50,7 @@ class Report:
         self.trusted_base: List[str] = []
         self.positives: Dict[str, bool] = {}
         self.selftest: Dict[str, Any] = {}
+        self.undecided: List[tuple] = []
 
     # -------------------------------------------------------------- recording
     def rule(self, rid: str, desc: str, floor: int = 1):
@@ -77,6 +78,23 @@ class Report:
         else:
             self.bad(rid, key, where, msg, data)
         return cond
+
+    def idiom(self, rid: str, ok: bool, key: str, where: str, msg: str, wrong=None, data=None, detail=None):
+        """A rule instance that depends on recognising an idiom.  ok -> holds.  Otherwise it is a violation only if one
+        of the `wrong` variants (pairs (condition, message)) is positively identified; an idiom that is merely not
+        recognised is *undecided* (exit 2 unless a genuine violation is reported too) -- never an alarm."""
+        if ok:
+            self.ok(rid, key, where, detail)
+            return True
+        for cond, wmsg in (wrong or []):
+            if cond:
+                self.bad(rid, key, where, wmsg or msg, data)
+                return False
+        r = self.rules[rid]
+        r["instances"] += 1
+        r["keys"].add(key)
+        self.undecided.append((rid, key, where, msg))
+        return False
 
     def note(self, text: str):
         self.notes.append(text)
@@ -143,6 +161,7 @@ class Report:
             "known_findings_matched": [{"rule": k["rule"], "key": k["key"], "fails": k["fails"]} for k in matched],
             "new_violations": [f.as_dict(self.pid) for f in new],
             "notes": self.notes,
+            "undecided": [{"rule": u[0], "key": u[1], "where": u[2], "why": u[3]} for u in self.undecided],
             "not_decided": self.not_decided,
             "checker_cmd": "/venv/bin/python -m sa.check %s --tier %s" % (self.pid, self.tier),
             "trusted_base": self.trusted_base or [
@@ -173,10 +192,18 @@ class Report:
                 print("note: " + n)
             for ln in lines:
                 print(ln)
+            for u in self.undecided:
+                print("UNDECIDED %s  rule=%s  instance=%s  idiom not recognised: %s" % (u[2], u[0], u[1], u[3]))
+            verdict = "FAIL" if new else ("UNDECIDED" if self.undecided else "PASS")
             print("%s %s: %s (%d rule instances, %d known findings, %d new violations, %.2fs)" % (
-                self.pid, self.tier, "FAIL" if new else "PASS", evaluations, len(matched), len(new),
-                time.time() - self.t0))
-        return 1 if new else 0
+                self.pid, self.tier, verdict, evaluations, len(matched), len(new), time.time() - self.t0))
+        if new:
+            return 1
+        if self.undecided:
+            print("ANALYSIS-ERROR property=%s %d rule instance(s) could not be decided because the code no longer has a "
+                  "recognised shape (no verdict)" % (self.pid, len(self.undecided)))
+            return 2
+        return 0
 
 
 def _default(o):
